@@ -1,6 +1,7 @@
 import XzVerif.Proofs.Segment
 import XzVerif.Proofs.Tables
 import XzVerif.Proofs.Lzma1RoundTrip
+import XzVerif.Proofs.Writer1
 /-
   C06 — Classic .lzma round trip is lossless and the explicit-size contract is enforced.
 
@@ -11,9 +12,20 @@ import XzVerif.Proofs.Lzma1RoundTrip
   `C06_stream_roundtrip_*`: the whole classic stream of the model (13-byte header, body, optional
   end marker) is read back by the reader model to exactly the content, in the three end modes
   (end marker only; explicit size only, including size 0; both), for every lc ≤ 8, lp ≤ 4, pb ≤ 4,
-  every dictionary size and every reader configuration, with every byte of the stream consumed.  The explicit-size contract of `lzma.Writer`
-  (`Write` refusing surplus bytes, `Close` failing when short) is bookkeeping of the Go writer
-  that is not modelled; it is decided by the size-contract oracle of the check.  `_partial`.
+  every dictionary size and every reader configuration, with every byte of the stream consumed.
+
+  **The writer itself** (`Model/Writer1.lean`: `WriterConfig.fill`, the header, `Writer.Write`, `Writer.Close`, the
+  encoder loop without byte limit, over an abstract match finder; tied to the real `lzma.Writer` on every run by
+  replaying the real match finder's proposals: every call's (n, error) and the stream bytes must be predicted):
+  * `C06_fill`: a positive size is always announced; no announced size implies an end marker;
+  * `C06_size_contract_write`: for every valid configuration, every applicable match finder and every sequence of
+    Write calls, each Write accepts exactly the bytes that still fit the announced size and reports ErrNoSpace
+    exactly when it refused a surplus;
+  * `C06_size_contract_close_and_roundtrip`: Close fails with errSize exactly when an announced size was not
+    reached; otherwise the stream starts with the truthful header and the reader model decodes it to exactly the
+    accepted bytes, clean end, every byte consumed, end marker present exactly as configured.
+  Not proved (`partial`): that HashTable4 / BinaryTree satisfy `MatcherOk` (tied: every recorded proposal is
+  replayed and judged); `bufio` buffering of the sink; behaviour after Close (not specified).
 -/
 namespace Props.C06
 open Lzma Rc
@@ -69,6 +81,41 @@ theorem C06_stream_roundtrip_size_and_marker (cfgCap : Nat) (hdr : Lzma1.Header)
   Lzma1.read_encode_known_marker cfgCap hdr ops hlc hlp hpb hdc hops hsize h63
 
 /-- non-vacuity: the empty stream with explicit size 0 (the F5/F6 case) -/
+theorem C06_fill (r : W1.RawCfg) :
+    ((W1.fill r).size = none → (W1.fill r).marker = true) ∧
+    (r.size > 0 → (W1.fill r).size = some r.size) ∧
+    (r.sizeInHeader = true → (W1.fill r).size = some r.size) ∧
+    (r.sizeInHeader = false → r.size = 0 → (W1.fill r).size = none ∧ (W1.fill r).marker = true) :=
+  W1.fill_spec r
+
+theorem C06_size_contract_write {σ : Type} (c : W1.Cfg) (hc : W1.CfgOk c) (M : W2.Matcher σ)
+    (hM : W2.MatcherOk c.w2 M) (m0 : σ) (ps : List ByteArray) :
+    (W1.run c M (W1.init c m0) (ps.map .write ++ [.close])).1.take ps.length = W1.specWrites c.size 0 ps :=
+  W1.writes_spec c hc M hM m0 ps
+
+theorem C06_size_contract_close_and_roundtrip {σ : Type} (c : W1.Cfg) (hc : W1.CfgOk c) (M : W2.Matcher σ)
+    (hM : W2.MatcherOk c.w2 M) (m0 : σ) (ps : List ByteArray) (cfgCap : Nat) (hcap : cfgCap ≤ max c.dictCap 4096) :
+    let res := W1.run c M (W1.init c m0) (ps.map .write ++ [.close])
+    let data := W1.acceptedData c.size 0 ps
+    ((match c.size with
+      | some sz => data.size ≠ sz
+      | none => False) →
+      (res.1.drop ps.length = [(0, some .size)] ∧ res.2 = none))
+    ∧
+    ((match c.size with
+      | some sz => data.size = sz
+      | none => True) →
+      res.1.drop ps.length = [(0, none)] ∧
+      ∃ o, res.2 = some o ∧ o.extract 0 13 = Lzma1.headerBytes c.header ∧
+        (Lzma1.read cfgCap o).status = .eof ∧ (Lzma1.read cfgCap o).out = data ∧
+        (Lzma1.read cfgCap o).consumed = o.size ∧ (Lzma1.read cfgCap o).marker = c.marker ∧
+        (Lzma1.read cfgCap o).openError = false) :=
+  W1.close_spec c hc M hM m0 ps cfgCap hcap
+
+/-- the hypotheses are satisfiable: explicit size 0 without end marker is a valid configuration -/
+example : W1.CfgOk (W1.fill { props := ⟨3, 0, 2⟩, dictCap := 4096, bufSize := 4096, sizeInHeader := true, size := 0, eosMarker := false }) := by
+  unfold W1.CfgOk W1.fill; decide
+
 example : OpsOk {} (Lzma1.encHist { props := ⟨3, 0, 2⟩, dictCap := 4096, size := some 0 }) [] := OpsOk.nil _ _
 
 end Props.C06
